@@ -46,7 +46,7 @@ class Ether:
         self.errors: list = []        # (receiver, sender, bytes, exception)
         self.filter = None            # optional callable(sender, receiver, bytes) -> list[bytes] (drop/dup/corrupt)
         self.rounds = 0
-        self.on_rx = None             # optional callable(receiver_name, packet) called after each delivery
+        self.on_rx = None             # optional callable(receiver_name, packet) called just before each delivery
 
     def attach(self, name: str, receive_callback) -> SimLinkLayer:
         ll = SimLinkLayer(self, name, receive_callback)
@@ -82,6 +82,8 @@ class Ether:
             return False
         seq, sender, rcv, pkt = self.queue.popleft()
         err = None
+        if self.on_rx:
+            self.on_rx(rcv, pkt)          # before processing: what the station is about to receive
         try:
             self.nodes[rcv].receive_callback(pkt)
         except BaseException as e:  # noqa  recorded: what the real receive loop would see
@@ -90,8 +92,6 @@ class Ether:
             err = e
             self.errors.append((rcv, sender, pkt, e))
         self.rx_log.append((seq, rcv, err))
-        if self.on_rx:
-            self.on_rx(rcv, pkt)
         return True
 
     def drain(self, max_rounds: int = 10_000) -> int:
